@@ -116,12 +116,40 @@ def pump(sa_x, ep_x, sa_y, ep_y, data):
     to = (sa_y, ep_y)
     other = (sa_x, ep_x)
     n = 0
+    LAST_PUMP[:] = [data]
     while data is not None:
         data = to[1].call(to[0].process_message, data)
+        if data is not None:
+            LAST_PUMP.append(data)
         to, other = other, to
         n += 1
         assert n < 12
     return n
+
+
+LAST_PUMP = []
+
+
+def wire_secret_of_pump(ini, res):
+    """the last request/response pair of the pumped conversation in which both messages carry a KE payload (an INVALID_KE_PAYLOAD round comes
+    before it, the delete of a rekeyed CHILD_SA after it)"""
+    m = MODS['message']
+    found = None
+    for i in range(0, len(LAST_PUMP) - 1, 2):
+        try:
+            found = wire_secret(LAST_PUMP[i], LAST_PUMP[i + 1], ini.my_crypto, res.my_crypto)
+        except m.PayloadNotFound:
+            continue
+    assert found is not None
+    return found
+
+
+def wire_secret(req, res, req_crypto, res_crypto):
+    """g^ir of a CREATE_CHILD_SA exchange from the KE payloads ON THE WIRE (not from whatever DH object an endpoint happens to hold)"""
+    m = MODS['message']
+    ke_i = m.Message.parse(req, crypto=req_crypto).get_payload(m.Payload.Type.KE, True).ke_data
+    ke_r = m.Message.parse(res, crypto=res_crypto).get_payload(m.Payload.Type.KE, True).ke_data
+    return symcrypto.shared_from_wire(ke_i, ke_r)
 
 
 def eq_bytes(x, y):
@@ -266,7 +294,7 @@ def do_new_child(p, eng, checks, who, sa_a=None, sa_b=None, pfs=False, label=Non
     req = IE.call(ini.process_acquire, tsi, tsr, 1 if who == 'A' else 2)
     assert req is not None
     pump(ini, IE, res, RE, req)
-    neg.done(pfs_secret=ini.dh.shared_secret if pfs else None)
+    neg.done(pfs_secret=wire_secret_of_pump(ini, res) if pfs else None)
     checks.append((label or f'CREATE_CHILD_SA initiated by {who}', neg, None, None))
 
 
@@ -276,7 +304,7 @@ def do_rekey_child(p, eng, checks, who, sa_a=None, sa_b=None, pfs=False, label=N
     req = IE.call(ini.process_expire, ini.child_sas[0].inbound_spi, False)
     assert req is not None
     pump(ini, IE, res, RE, req)
-    neg.done(pfs_secret=ini.dh.shared_secret if pfs else None)
+    neg.done(pfs_secret=wire_secret_of_pump(ini, res) if pfs else None)
     checks.append((label or f'CHILD_SA rekey initiated by {who}', neg, None, None))
 
 
@@ -313,7 +341,8 @@ def do_cross(p, eng, checks, kinds, sa_a=None, sa_b=None, pfs=False):
         out = IE.call(ini.process_message, res)
         neg.new_i = newsa(IE, n0)
         neg.nonces = (ni[who], nr)
-        neg.pfs_secret = ini.dh.shared_secret if pfs else None
+        peer_sa = ends(p, who, a, b)[2]
+        neg.pfs_secret = wire_secret(reqs[who], res, ini.my_crypto, peer_sa.my_crypto) if pfs else None
         neg.child = ini.child_sas[-1] if ini.child_sas else None
         neg.prf_id = int(ini.chosen_proposal.get_transform(MODS['message'].Transform.Type.PRF).id)
         checks.append((f'crossing CREATE_CHILD_SA ({kinds[0]} by A x {kinds[1]} by B), exchange initiated by {who}', neg, None, None))
